@@ -80,6 +80,8 @@ def gen_run_case(rng: random.Random) -> dict:
         "shuffle": rng.random() < 0.5, "save_tree": rng.random() < 0.4, "cent": rng.random() < 0.7,
         "overwrite": rng.random() < 0.3, "prepopulated": rng.random() < 0.4, "copy": rng.random() < 0.5,
         "monitor": rng.random() < 0.15,
+        # unpacked 0/1 features may be stored in any integer dtype (the API and `fit(path)` accept them all)
+        "unpacked_dtype": rng.choice([None, None, "int8", "int32", "int64", "uint16"]),
     }
 
 
